@@ -557,20 +557,8 @@ func ruleAttrGuard(p *Prog, r *Report, scope []*ssa.Function, what string) {
 			}
 			return false
 		}
-		eachInstr(fn, func(b *ssa.BasicBlock, in ssa.Instruction) {
-			// a prefix test used as a branch condition, or handed back by a predicate helper
-			var condV ssa.Value
-			switch x := in.(type) {
-			case *ssa.If:
-				condV = x.Cond
-			case *ssa.Return:
-				if len(x.Results) == 1 && isBoolType(x.Results[0].Type()) {
-					condV = x.Results[0]
-				}
-			}
-			if condV == nil {
-				return
-			}
+		var checkCond func(b *ssa.BasicBlock, condV ssa.Value)
+		checkCond = func(b *ssa.BasicBlock, condV ssa.Value) {
 			ifi := struct{ Cond ssa.Value }{condV}
 			ng := normGuard(guard{ifi.Cond, true})
 			c := cz.of(ng.Cond)
@@ -605,6 +593,26 @@ func ruleAttrGuard(p *Prog, r *Report, scope []*ssa.Function, what string) {
 				r.OK(rule, name, construct, p.Pos(ifi.Cond.Pos()), "taken only where the attribute prefix is known non-empty")
 			} else {
 				r.Bad(rule, name, construct, p.Pos(ifi.Cond.Pos()), "a key is tested for the attribute prefix where the prefix may be empty: with an empty prefix every key passes the test")
+			}
+		}
+		eachInstr(fn, func(b *ssa.BasicBlock, in ssa.Instruction) {
+			// a prefix test used as a branch condition, or handed back by a predicate helper
+			switch x := in.(type) {
+			case *ssa.If:
+				checkCond(b, x.Cond)
+			case *ssa.Return:
+				if len(x.Results) == 1 && isBoolType(x.Results[0].Type()) {
+					// "return prefix != "" && strings.HasPrefix(k, prefix)": the test is an edge of the returned phi, evaluated in its own block
+					if ph, ok := x.Results[0].(*ssa.Phi); ok {
+						for _, e := range ph.Edges {
+							if ei, ok := e.(ssa.Instruction); ok && ei.Block() != nil {
+								checkCond(ei.Block(), e)
+							}
+						}
+						return
+					}
+					checkCond(b, x.Results[0])
+				}
 			}
 		})
 	}
